@@ -57,7 +57,7 @@ func VerifC04Normal() {
 			rt.Assume(rt.Not(rt.And(c.and, c.or)))
 			rt.Assume(rt.Not(rt.And(c.method, rt.Or(c.and, c.or))))
 		}
-		c.exit = rt.IntRange("exit", 0, 255)
+		c.exit = rt.IntRange("exit", -255, 255)
 		procs[i].OperatorLogicAnd = c.and
 		procs[i].OperatorLogicOr = c.or
 		procs[i].IsMethod = c.method
